@@ -5,8 +5,8 @@ cd /repo || exit 2
 if ! git diff --quiet; then echo "repo has uncommitted changes"; exit 2; fi
 git apply /verif/seeded/$seed/patch.diff || { echo "patch does not apply"; exit 2; }
 for p in "$@"; do
-  (cd /verif && ./bin/govc check --property $p --tier quick 2>&1 | grep -v '^globals' | sed "s/^/[$seed $p] /")
-  echo "[$seed $p] exit=${PIPESTATUS[0]}"
+  (cd /verif && ./bin/govc check --property $p --tier quick > /tmp/seedrun.$$.log 2>&1; echo "[$seed $p] exit=$?" >> /tmp/seedrun.$$.log)
+  grep -v '^globals' /tmp/seedrun.$$.log | sed "s/^/[$seed $p] /" | cut -c1-260; rm -f /tmp/seedrun.$$.log
 done
 git -C /repo checkout -- . ; git -C /repo status --short | grep -v '^??' 
 # evidence files were rewritten against the seeded tree: restore them
